@@ -23,6 +23,10 @@ def main():
             na.append({"property_id": pid, "reason": "check not built yet in this round (planned: see DESIGN.md section 6)"})
             continue
         m = importlib.import_module("vf.props." + pid.lower())
+        if getattr(m, "REGISTERED", True) is False:
+            # module exists but is not finished (see its REGISTERED comment): not claimed
+            na.append({"property_id": pid, "reason": "check not built yet in this round (planned: see DESIGN.md section 6)"})
+            continue
         if getattr(m, "NOT_APPLICABLE", None):
             na.append({"property_id": pid, "reason": m.NOT_APPLICABLE})
             continue
